@@ -70,6 +70,7 @@ class Evaluator(PE):
         self.site_nodes = []
         self.models.setdefault("mashumaro.core.meta.code.builder::CodeBuilder.ensure_object_imported", _m_ensure_object)
         self.models.setdefault("mashumaro.core.meta.code.builder::CodeBuilder.ensure_module_imported", _m_ensure_module)
+        self.models.setdefault("mashumaro.core.meta.code.builder::CodeBuilder.add_type_modules", _m_add_type_modules)
 
     # ================================================================ emission
     def emit(self, bid: str, v: V, p: Path, node: ast.AST) -> None:
@@ -1063,6 +1064,12 @@ def _m_ensure_object(pe, fv, args, kwargs, p, e):
     obj = args[0] if args else kwargs.get("obj")
     name = args[1] if len(args) > 1 else kwargs.get("name")
     p.events.append(("ensure_object", obj, name, (pe.cur.key, e.lineno)))
+    return [(Const(None), p)]
+
+
+def _m_add_type_modules(pe, fv, args, kwargs, p, e):
+    for a in args:
+        p.events.append(("add_type_modules", a, None, (pe.cur.key, e.lineno)))
     return [(Const(None), p)]
 
 
